@@ -222,6 +222,99 @@ func genC06(g *gen) {
 	g.line("Definition gen_replay_one_group_per_origin_seq : bool := %s.", coqBool(selects && deletes))
 	g.line("Definition gen_replay_prefers_larger_then_shorter_path : bool := %s.", coqBool(bySize && byPathLen && byPathBytes))
 
+	// getLocalDisplayName: `if len(name) > maxDisplayNameLen { name = name[:maxDisplayNameLen] }`,
+	// i.e. the wire name is the first maxDisplayNameLen bytes. Any other shape gives 0.
+	cut := int64(0)
+	if fd := findFunc(f, "Flooder", "getLocalDisplayName"); fd != nil {
+		for _, st := range fd.Body.List {
+			is, ok := st.(*ast.IfStmt)
+			if !ok || is.Else != nil || len(is.Body.List) != 1 {
+				continue
+			}
+			be, ok := is.Cond.(*ast.BinaryExpr)
+			if !ok || be.Op != token.GTR || src(be.X) != "len(name)" {
+				continue
+			}
+			lim, ok := evalSel(be.Y, env, proto)
+			if !ok {
+				continue
+			}
+			if as, ok := is.Body.List[0].(*ast.AssignStmt); ok && len(as.Lhs) == 1 && src(as.Lhs[0]) == "name" && as.Tok == token.ASSIGN {
+				if sl, ok := as.Rhs[0].(*ast.SliceExpr); ok && src(sl.X) == "name" && sl.Low == nil && sl.High != nil && !sl.Slice3 {
+					if hi, ok := evalSel(sl.High, env, proto); ok && hi == lim {
+						cut = lim
+					}
+				}
+			}
+		}
+		if cut == 0 {
+			g.note("getLocalDisplayName: the cut to maxDisplayNameLen bytes was not recognised")
+		}
+	}
+	g.line("Definition gen_display_name_cut_bytes : N := %d.", cut)
+
+	// routing.Manager: every increment of the sequence counter happens while m.mu is
+	// held for writing (Lock, not RLock); IncrementSequence in particular
+	writers, exclusive, incrExclusive := 0, 0, false
+	for _, mf := range parseDir("internal/routing") {
+		for _, d := range mf.Decls {
+			fd, ok := d.(*ast.FuncDecl)
+			if !ok || fd.Body == nil || recvName(fd) != "Manager" {
+				continue
+			}
+			state := "" // "", "w", "r": lock state along the statement list (top-level statements, in order)
+			var walk func(list []ast.Stmt)
+			walk = func(list []ast.Stmt) {
+				for _, st := range list {
+					switch x := st.(type) {
+					case *ast.ExprStmt:
+						switch src(x.X) {
+						case "m.mu.Lock()":
+							state = "w"
+						case "m.mu.RLock()":
+							state = "r"
+						case "m.mu.Unlock()", "m.mu.RUnlock()":
+							state = ""
+						}
+					case *ast.IncDecStmt:
+						if src(x.X) == "m.sequence" {
+							writers++
+							if state == "w" {
+								exclusive++
+								if fd.Name.Name == "IncrementSequence" {
+									incrExclusive = true
+								}
+							}
+						}
+					case *ast.AssignStmt:
+						for _, l := range x.Lhs {
+							if src(l) == "m.sequence" {
+								writers++
+								if state == "w" {
+									exclusive++
+								}
+							}
+						}
+					case *ast.IfStmt:
+						saved := state
+						walk(x.Body.List)
+						if n := len(x.Body.List); n > 0 {
+							if _, returns := x.Body.List[n-1].(*ast.ReturnStmt); returns {
+								state = saved // an early exit: the code after the if still holds the lock
+							}
+						}
+					case *ast.BlockStmt:
+						walk(x.List)
+					}
+				}
+			}
+			walk(fd.Body.List)
+		}
+	}
+	g.line("Definition gen_sequence_writers : N := %d.", writers)
+	g.line("Definition gen_sequence_writers_under_write_lock : N := %d.", exclusive)
+	g.line("Definition gen_increment_sequence_under_write_lock : bool := %s.", coqBool(incrExclusive))
+
 	// HandleRouteAdvertise: the re-flooded routes are a copy with every metric incremented,
 	// the seen-by list gets the local id appended, origin/sequence are passed through
 	metricInc, passesFwd, seenAppend := false, false, false
